@@ -335,6 +335,7 @@ def run_history(hist, sym, st: Stats, equal_names=False):
 # element was stepped while a stateful one was not.
 #   mini1: ramp O -> link L -> free destination
 #   mini2: ideal origin I -> link A -> node with ramp R -> link B -> free destination
+#   mini3: ideal origins I, J -> links A, B merging into link C -> free destination
 # ---------------------------------------------------------------------------------------
 def _mini1():
     a, b = M.Node(name="a"), M.Node(name="b")
@@ -352,11 +353,24 @@ def _mini2():
     return net, objs
 
 
+def _mini3():
+    a, b, c, d = (M.Node(name=x) for x in "abcd")
+    objs = {"A": M.Link(2, 2, 1.0, 180.0, 33.5, 102.0, 1.867, name="A"), "B": M.Link(1, 1, 1.0, 180.0, 33.5, 102.0, 1.867, name="B"),
+            "C": M.Link(2, 3, 1.0, 180.0, 33.5, 102.0, 1.867, name="C"), "I": M.Origin(name="I"), "J": M.Origin(name="J")}
+    net = (M.Network(name="mini3").add_path((a, objs["A"], c, objs["C"], d), origin=objs["I"], destination=M.Destination(name="D"))
+           .add_path((b, objs["B"], c), origin=objs["J"]))
+    return net, objs
+
+
 FAMILIES = {
     "mini1": dict(build=_mini1, stateful=("L", "O"), stateless=(), ramps=("O",), n_states={"L": 4, "O": 1},
                   deps={"L": ("L", "O"), "O": ("O", "L")}),
     "mini2": dict(build=_mini2, stateful=("A", "B", "R"), stateless=("I",), ramps=("R",), n_states={"A": 4, "B": 2, "R": 1},
                   deps={"A": ("A", "B"), "B": ("B", "A", "R"), "R": ("R", "B")}),
+    # mini3: a merge - ideal origins I, J -> links A, B -> one node -> link C -> free destination (a link that enters a
+    # node another link already leads to)
+    "mini3": dict(build=_mini3, stateful=("A", "B", "C"), stateless=("I", "J"), ramps=(), n_states={"A": 4, "B": 2, "C": 4},
+                  deps={"A": ("A", "C"), "B": ("B", "C"), "C": ("C", "A", "B")}),
 }
 
 
